@@ -177,7 +177,7 @@ def _precondition_obligations(ctx, fi, header, fail_label, effects, effect_desc,
     # the failing side answers with the right status
     starts = [m for t in tests for m, l in t.succ if l == fail_label]
     rets = first_returns_from(cfg, starts)
-    sts = sorted({return_status(ctx, fi, r) for r in rets if r.ast.value is not None}, key=lambda x: (x is None, x))
+    sts = sorted({return_status(ctx, fi, r, after=starts) for r in rets if r.ast.value is not None}, key=lambda x: (x is None, x))
     ok = bool(rets) and all(s == fail_status for s in sts)
     obs.append(ctx.ob(ok, construct, where(fi, tests[0]), "failed %s answers %d" % (header, fail_status),
                       "failing side returns %s" % sts, "failing side of the %s test returns %s, expected %d" % (header, sts, fail_status)))
@@ -445,27 +445,111 @@ def p3(ctx):
       desc="etag list grammar: etag_matches splits the header value on ',' (HTTP list separator), strips optional "
            "white space of every element, accepts '*', and compares each element with the actual etag")
 def m1(ctx):
+    from ..dataflow import DefUse, origins, depends_on
     fi = ctx.func("xandikos.webdav.etag_matches")
+    if len(fi.params) < 2:
+        raise AnalysisError("etag_matches: expected (condition, actual_etag)")
+    cfg = ctx.cfg(fi)
+    du = DefUse(cfg)
     obs = []
-    cond = fi.params[0]
-    splits = [n for n in walk_local(fi.node) if isinstance(n, ast.Call) and isinstance(n.func, ast.Attribute) and n.func.attr in ("split", "rsplit")
-              and dotted(n.func.value) == cond]
+    cond, actual = fi.params[0], fi.params[1]
+
+    def split_call(e):
+        return isinstance(e, ast.Call) and isinstance(e.func, ast.Attribute) and e.func.attr in ("split", "rsplit") and e.args is not None
+
+    def from_cond(n, e):
+        os_ = origins(du, n, e)
+        return bool(os_) and all(o.kind == "param" and o.name == cond for o in os_)
+
+    splits = []
+    for n in cfg.stmt_nodes():
+        for c in n.calls():
+            if split_call(c) and from_cond(n, c.func.value):
+                splits.append((n, c))
     if not splits:
         raise AnalysisError("etag_matches no longer splits its condition with str.split (unmodelled parser)")
-    for sp in splits:
+    for n, sp in splits:
         sep = ctx.P.try_fold(fi.module, sp.args[0]) if sp.args else None
-        obs.append(ctx.ob(sep == ",", fi.qualname, "%s:%d" % (fi.module.rel, sp.lineno), "list split on ','",
+        obs.append(ctx.ob(sep == ",", fi.qualname, where(fi, n), "list split on ','",
                           "separator %r" % sep, "etag_matches splits the header on %r: a list written without exactly that separator "
                           "(e.g. '\"a\",\"b\"') is not recognised, so a listed etag does not match" % sep))
-    strips = [n for n in walk_local(fi.node) if isinstance(n, ast.Call) and isinstance(n.func, ast.Attribute) and n.func.attr == "strip"]
-    cmps = [n for n in walk_local(fi.node) if isinstance(n, ast.Compare)]
-    stripped_cmp = [c for c in cmps if any(isinstance(x, ast.Call) and isinstance(x.func, ast.Attribute) and x.func.attr == "strip" for x in ast.walk(c))]
-    # elements must be stripped before they are compared (directly or via a comprehension variable)
-    ok = bool(strips) and (bool(stripped_cmp) or any(isinstance(n, (ast.ListComp, ast.GeneratorExp, ast.SetComp)) and
-                                                     any(isinstance(x, ast.Call) and isinstance(x.func, ast.Attribute) and x.func.attr == "strip" for x in ast.walk(n.elt))
-                                                     for n in walk_local(fi.node)))
-    obs.append(ctx.ob(ok, fi.qualname, fi.where, "elements are stripped of optional white space", "strip() applied to each element",
-                      "etag_matches compares list elements without stripping the optional white space around them"))
-    star = any(isinstance(n, ast.Constant) and n.value == "*" for n in walk_local(fi.node))
-    obs.append(ctx.ob(star, fi.qualname, fi.where, "'*' is recognised", "literal '*' handled", "etag_matches no longer recognises '*'"))
+    split_ids = {id(c) for _n, c in splits}
+
+    def is_element(n, e, depth=0):
+        """*e* at *n* is one element of the split list (loop / comprehension variable or a subscript of the list)."""
+        os_ = origins(du, n, e)
+        if not os_:
+            return False
+        for o in os_:
+            if o.kind == "elem" and id(o.leaf) in split_ids:
+                continue
+            if o.kind == "expr" and id(o.leaf) in split_ids and o.path:
+                continue
+            if o.kind == "expr" and isinstance(o.leaf, ast.Subscript) and depth < 3 and is_list(o.node or n, o.leaf.value):
+                continue
+            return False
+        return True
+
+    def is_list(n, e):
+        os_ = origins(du, n, e)
+        return bool(os_) and all(o.kind == "expr" and id(o.leaf) in split_ids and not o.path for o in os_)
+
+    def strips_blank(lf):
+        if not (isinstance(lf, ast.Call) and isinstance(lf.func, ast.Attribute) and lf.func.attr == "strip"):
+            return False
+        chars = ctx.P.try_fold(fi.module, lf.args[0]) if lf.args else " \t"
+        return isinstance(chars, str) and " " in chars and not chars.strip()
+
+    def stripped_element(n, e):
+        os_ = origins(du, n, e)
+        if not os_:
+            return False
+        for o in os_:
+            lf = o.leaf
+            if o.kind == "elem" and isinstance(lf, (ast.GeneratorExp, ast.ListComp, ast.SetComp)) and len(lf.generators) == 1 \
+                    and not lf.generators[0].ifs and isinstance(lf.generators[0].target, ast.Name):
+                # element of `(v.strip() for v in cond.split(","))`
+                g = lf.generators[0]
+                if strips_blank(lf.elt) and isinstance(lf.elt.func.value, ast.Name) and lf.elt.func.value.id == g.target.id \
+                        and (id(g.iter) in split_ids or is_list(o.node or n, g.iter)):
+                    continue
+                return False
+            if not (o.kind == "expr" and strips_blank(lf)):
+                return False
+            if not is_element(o.node or n, lf.func.value):
+                return False
+        return True
+
+    n_cmp = 0
+    star_ok = False
+    bad = []
+    for n in cfg.stmt_nodes():
+        for e in n.exprs():
+            for x in ast.walk(e):
+                if not (isinstance(x, ast.Compare) and len(x.ops) == 1 and isinstance(x.ops[0], (ast.Eq, ast.NotEq, ast.In, ast.NotIn))):
+                    continue
+                left, right = x.left, x.comparators[0]
+                alts = list(right.elts) if isinstance(x.ops[0], (ast.In, ast.NotIn)) and isinstance(right, (ast.Tuple, ast.List, ast.Set)) else [right]
+                for l_, r_ in [(left, a_) for a_ in alts] + [(a_, left) for a_ in alts]:
+                    is_star = isinstance(r_, ast.Constant) and r_.value == "*"
+                    is_actual = not isinstance(r_, ast.Constant) and actual in depends_on(du, n, r_) and cond not in depends_on(du, n, r_)
+                    if not (is_star or is_actual):
+                        continue
+                    if cond not in depends_on(du, n, l_):
+                        continue
+                    good = stripped_element(n, l_)
+                    if is_star and good:
+                        star_ok = True
+                    if is_actual:
+                        n_cmp += 1
+                        if not good:
+                            bad.append((n, x))
+    if n_cmp == 0:
+        raise AnalysisError("etag_matches: no comparison of a list element with the actual etag found")
+    obs.append(ctx.ob(not bad, fi.qualname, where(fi, bad[0][0]) if bad else fi.where, "elements are stripped of optional white space",
+                      "every comparison with the actual etag uses element.strip()",
+                      "etag_matches compares `%s`: the value compared with the actual etag is not a list element stripped of its optional "
+                      "white space, so '\"a\", \"b\"' does not match \"b\"" % (src(bad[0][1]) if bad else "")))
+    obs.append(ctx.ob(star_ok, fi.qualname, fi.where, "'*' is recognised", "a stripped element is compared with '*'",
+                      "etag_matches no longer recognises '*' as a list element"))
     return obs
